@@ -349,6 +349,72 @@ def equal_input_probes(chk, da):
             chk.traces_validated += 1
 
 
+def updated_then_pickled(chk, da):
+    """(g) a collection whose keys / graph were read, then updated IN PLACE (setitem, ufunc out=, compute_chunk_sizes), then
+    pickled: the copy must carry the name, keys, Frisky output keys, chunks, dtype and values the live object has NOW, and the
+    live object's keys must belong to its current name"""
+    rng = chk.rng
+    n = 300 if chk.tier == "thorough" else 40
+    for it in range(n):
+        shape = (rng.choice([6, 9]),) if rng.random() < 0.5 else (4, rng.choice([3, 5]))
+        data = np.arange(int(np.prod(shape)), dtype="float64").reshape(shape) - 3
+        chunks = tuple(progs.rand_chunks_for(rng, s2) for s2 in shape)
+        peek = rng.choice(["keys", "frisky-keys", "compute", "graph", "pickle", "none"])
+        update = rng.choice(["setitem-slice", "setitem-int", "setitem-mask", "ufunc-out", "compute_chunk_sizes"])
+        try:
+            with warnings.catch_warnings():
+                warnings.simplefilter("ignore")
+                x = da.from_array(data, chunks=chunks) + 1
+                if update == "compute_chunk_sizes":
+                    x = x[x > 0]
+                if peek == "keys":
+                    x.__dask_keys__()
+                elif peek == "frisky-keys":
+                    x.__frisky_output_keys__()
+                elif peek == "compute":
+                    x.compute(scheduler="sync")
+                elif peek == "graph":
+                    dict(x.__dask_graph__())
+                elif peek == "pickle":
+                    cloudpickle.dumps(x)
+                if update == "setitem-slice":
+                    x[1:3] = 7.0
+                elif update == "setitem-int":
+                    x[0] = 5.0
+                elif update == "setitem-mask":
+                    x[x > 2] = -1.0
+                elif update == "ufunc-out":
+                    da.add(x, 2.0, out=x)
+                else:
+                    x.compute_chunk_sizes()
+                live = summary(x)
+                live["frisky_output_keys"] = repr(x.__frisky_output_keys__())
+                first_key = next(iter(progs_flat(x.__dask_keys__())))
+                z = cloudpickle.loads(cloudpickle.dumps(x))
+                copy = summary(z)
+                copy["frisky_output_keys"] = repr(z.__frisky_output_keys__())
+        except Exception as e:  # noqa: BLE001
+            chk.count("updated-then-pickled:skipped:" + type(e).__name__)
+            continue
+        chk.case(("updated-then-pickled", peek, update, shape, repr(chunks)), nontrivial=peek != "none",
+                 sample={"peek": peek, "update": update, "chunks": chunks} if it < 2 else None)
+        chk.count("updated-then-pickled:" + update)
+        diff = [k for k in live if not k.startswith("_") and live[k] != copy[k]]
+        if first_key[0] != x.name:
+            diff.append("live keys do not carry the live name")
+        if diff:
+            chk.violation(f"after reading ({peek}) and an in-place update ({update}), the cloudpickle round trip changes " + ", ".join(diff),
+                          {"peek": peek, "update": update, "chunks": chunks, "live": live, "copy": copy},
+                          signature={"class": "updated-then-pickled", "fields": sorted(diff)})
+        else:
+            chk.traces_validated += 1
+
+
+def progs_flat(keys):
+    from dask.core import flatten
+    return flatten(keys)
+
+
 def run(chk: Check):
     with nm.recording():
         _run(chk)
@@ -362,6 +428,7 @@ def _run(chk: Check):
                 "(d) the pickle loaded by a fresh interpreter; (e) every expression node of the raw/simplified/lowered/fused/"
                 "materialized forms pickled on its own and tied to the model (reduce_carries, rt_name); (f) operand probes: "
                 "pairs of API calls that differ in one operand must get different names whenever values/chunks/dtype differ; "
+                "(g) collections read (keys / graph / compute), updated in place, then pickled: the copy equals the live object; "
                 "non-trivial = more than one node")
     chk.run_proofs()
     chk.assumptions = ["the pickle hash behind Rechunk names (hash_buffer_hex of a protocol-5 pickle of ints/strings) is process independent",
@@ -370,6 +437,7 @@ def _run(chk: Check):
     t0 = time.time()
     operand_probes(chk, da)
     equal_input_probes(chk, da)
+    updated_then_pickled(chk, da)
     chk.extra["t_probes"] = round(time.time() - t0, 1)
     nodes = NodeRoundTrip(chk)
     d = tempfile.mkdtemp(prefix="verif-c07-", dir=SCRATCH_ROOT)
